@@ -308,6 +308,12 @@ impl Runnable {
         // Poll the future.
         unsafe { (this.vtable.run)(this.task) }
     }
+
+    /// Returns an identifier of the underlying task (its address).
+    #[cfg(feature = "verif-hooks")]
+    pub(crate) fn verif_id(&self) -> usize {
+        self.task as usize
+    }
 }
 
 impl Drop for Runnable {
